@@ -256,6 +256,10 @@ impl Scan {
         if rq.request_type != RequestType::Document && rq.request_type != RequestType::Subdocument {
             return (None, 0, 0);
         }
+        // only http, https, ws and wss requests are eligible for matching
+        if !rq.is_supported {
+            return (None, 0, 0);
+        }
         let (mut n_hits, mut n_exc) = (0usize, 0usize);
         let mut on = BTreeSet::new();
         let mut off = BTreeSet::new();
